@@ -728,3 +728,65 @@ def rule_lane_suffix(chk, P, rid, floor=60):
                     continue
                 r.bad(key, ev['loc'], '%s: `%s %s %s` updates index %d from variables of index %d only' % (
                     f.name, guards.lv(ev['lhs']), ev.get('op') or '=', guards.lv(ev.get('rhs') or {}), li, next(iter(ridx))))
+
+
+def rule_case_sibling_args(chk, P, rid, floor=20, tus=None):
+    """the cases of one switch that each make exactly one call are siblings: an integer variable (a length, a count) that all of them but
+    one hand to their callee is expected in the odd one too (a case that passes the wrong length variable)"""
+    from .. import guards
+    r = chk.rule(rid, 'in a switch whose cases each make one call, an integer local / parameter that every other case passes to its callee is '
+                      'also passed by the remaining one (four or more cases)', floor=floor)
+    seen = set()
+    for tu in (tus or P.tus()):
+        for f in P.funcs(tu):
+            if (f.name, f.loc) in seen:
+                continue
+            seen.add((f.name, f.loc))
+            if not any((b.get('term') or {}).get('kind') == 'SwitchStmt' for b in f.blocks.values()):
+                continue
+            with guards.in_function(f):
+                cctx = guards.case_contexts(f)
+                # switch id = (rendering of the selector, head block is not available here: use the set of blocks sharing the rendering)
+                groups = {}
+                for b, i, ev in f.calls():
+                    for sw, vals in (cctx.get(b) or {}).items():
+                        if len(vals) != 1:
+                            continue
+                        groups.setdefault((sw, ev['loc'].rsplit(':', 1)[0]), {}).setdefault(next(iter(vals)), []).append(ev)
+                # one function may switch on the same selector several times: split by proximity of source lines
+                for (sw, _), cases in groups.items():
+                    # one function may switch on the same selector several times: a run of calls on consecutive source lines, each under
+                    # another case value, is one switch statement
+                    items = sorted(((v, ev) for v, evs in cases.items() for ev in evs), key=lambda kv: int(kv[1]['loc'].rsplit(':', 1)[1]))
+                    runs, cur = [], []
+                    for v, ev in items:
+                        ln = int(ev['loc'].rsplit(':', 1)[1])
+                        if cur and (ln - int(cur[-1][1]['loc'].rsplit(':', 1)[1]) > 4 or v in {x for x, _ in cur}):
+                            runs.append(cur)
+                            cur = []
+                        cur.append((v, ev))
+                    if cur:
+                        runs.append(cur)
+                    for run in runs:
+                        if len(run) < 4:
+                            continue
+                        ints = []
+                        for v, ev in run:
+                            s_ = set()
+                            for a in ev['e'].get('a', []):
+                                x = cf.strip_casts(a)
+                                if isinstance(x, dict) and x.get('k') == 'ref' and not x.get('g') and not x.get('fn') and \
+                                        re.search(r'\b(size_t|int|unsigned|uint\d+_t|long)\b', x.get('ty') or '') and '*' not in (x.get('ty') or ''):
+                                    s_.add(x['n'])
+                            ints.append(s_)
+                        allv = set().union(*ints)
+                        for name in sorted(allv):
+                            have = [name in s_ for s_ in ints]
+                            for k, (v, ev) in enumerate(run):
+                                key = '%s:%s@%s' % (f.name, name, ev['loc'].split('/')[-1])
+                                if sum(have) == len(run) - 1 and not have[k]:
+                                    r.bad(key, ev['loc'], '%s: every other case of the switch on %s passes `%s` to its callee; the case at %s calls %s '
+                                                          'without it' % (f.name, sw, name, ev['loc'], ev['e'].get('fn') or '?'))
+                                elif have[k]:
+                                    r.ok(key)
+    return r
